@@ -36,6 +36,9 @@ def run(ctx):
     ctx.rule('R05f', 'the lookup tables cached on a parsing state are reused from the parent only when '
                      'no field they depend on changed, and both arms assign the same tables (C17 P2/P4): a '
                      'stale table makes tokenizing fail with TypeError/KeyError instead of a parse error', 4)
+    ctx.rule('R05g', 'no branch that rejects input (builds a parse error) is guarded by a parsing-state switch '
+                     'that is constant on that state: a state derived with sub_context(flag=<literal>) has '
+                     'that flag fixed, also in the helper methods it is handed to', 1)
     ctx.rule('R05e', 'unbalanced input is rejected: each closing token kind reaching the dispatcher '
                      'raises a parse error before any node is produced; delimited constructs require '
                      'their closing predicate (kind and closer) and an unmet required stop condition '
@@ -80,6 +83,9 @@ def run(ctx):
     # TypeError/KeyError (not a parse error) on nested math: C17's cache rules are necessary here
     from . import c17
     c17.run(_filtered(_Sub(ctx, 'R05f'), ('P2', 'P4')))
+
+    # ------------------------------------------------------------ R05g
+    _dead_rejections(ctx, repo)
 
     # ------------------------------------------------------------ R05e
     co = repo.mod(COLL)
@@ -160,6 +166,65 @@ def run(ctx):
         'configuration/protocol raise; crash-construct rules G1-G9 on the reachable functions; '
         'every parse error gets a position that cannot be None and line/column from it; stray '
         'closing tokens and unmet required stop conditions raise.')
+
+
+def _dead_rejections(ctx, repo):
+    """constant propagation of parsing-state switches fixed by sub_context(flag=<literal>) into
+    the tests that guard error branches (one level through self.<method>(...) calls)"""
+    n_states = 0
+    for mod in sorted(repo.modules.values(), key=lambda m_: m_.name):
+        if not mod.name.startswith('pylatexenc.latexnodes'):
+            continue
+        known = {}      # (function node id, name) -> {flag: literal}
+        fnodes = {}
+        for q, f in mod.functions.items():
+            fnodes[q] = f
+            for st in iter_own(f):
+                if isinstance(st, ast.Assign) and len(st.targets) == 1 and isinstance(st.targets[0], ast.Name) \
+                        and isinstance(st.value, ast.Call) and call_name(st.value) == 'sub_context':
+                    consts = dict((k.arg, k.value.value) for k in st.value.keywords
+                                  if k.arg and isinstance(k.value, ast.Constant))
+                    nm = st.targets[0].id
+                    rebinds = [x for x in iter_own(f) if isinstance(x, ast.Assign) and any(
+                        isinstance(t, ast.Name) and t.id == nm for t in x.targets)]
+                    if consts and len(rebinds) == 1:
+                        known[(id(f), nm)] = consts
+                        n_states += 1
+        # one level: handed to a method of the same class by position/keyword
+        for q, f in mod.functions.items():
+            for c in iter_own(f):
+                if not (isinstance(c, ast.Call) and isinstance(c.func, ast.Attribute)
+                        and isinstance(c.func.value, ast.Name) and c.func.value.id == 'self'):
+                    continue
+                cls = q.rsplit('.', 1)[0] if '.' in q else None
+                g = fnodes.get('%s.%s' % (cls, c.func.attr)) if cls else None
+                if g is None:
+                    continue
+                gp = [a.arg for a in g.args.args][1:]
+                pairs = list(zip(gp, c.args)) + [(k.arg, k.value) for k in c.keywords if k.arg]
+                for pn, a in pairs:
+                    if isinstance(a, ast.Name) and (id(f), a.id) in known:
+                        others = [x for x in ast.walk(mod.tree) if isinstance(x, ast.Call)
+                                  and call_name(x) == c.func.attr and x is not c]
+                        if not others:
+                            known[(id(g), pn)] = known[(id(f), a.id)]
+        for q, f in sorted(mod.functions.items()):
+            for i in [i for i in iter_own(f) if isinstance(i, ast.If)]:
+                if not any(isinstance(x, ast.Call) and call_name(x).endswith('ParseError') for b in i.body
+                           for x in ast.walk(b)):
+                    continue
+                conj = i.test.values if isinstance(i.test, ast.BoolOp) and isinstance(i.test.op, ast.And) else [i.test]
+                for cj in conj:
+                    if isinstance(cj, ast.Attribute) and isinstance(cj.value, ast.Name) and \
+                            (id(f), cj.value.id) in known and cj.attr in known[(id(f), cj.value.id)] and \
+                            not known[(id(f), cj.value.id)][cj.attr]:
+                        ctx.refuted('R05g', mod, i, 'the branch that rejects the input is guarded by %s, but %s is '
+                                    'derived with sub_context(%s=%r): the test is always false, the rejection is '
+                                    'dead code and strict mode accepts what it used to reject'
+                                    % (unparse(cj), cj.value.id, cj.attr, known[(id(f), cj.value.id)][cj.attr]),
+                                    construct='%s: %s' % (q, short(i.test, 80)))
+    ctx.holds('R05g', None, None, '%d derived states with fixed switches tracked; no rejection branch tests a '
+              'fixed-false switch' % n_states, construct='dead rejection scan', trivial=True)
 
 
 def _may_be_none(prog, f, call, pos, depth=0):
@@ -249,10 +314,11 @@ def _filtered(sub, keep):
 
 
 def _r20a_only(sub, repo, w):
-    """Run C20 and keep only its R20a obligations (error annotation)."""
+    """Run C20 and keep its R20a (error annotation) and R20c/R20d (position -> line/column map)
+    obligations: a strict-mode error is located by line and column too."""
     class Filter(_Sub):
         def _keep(self, rule):
-            return rule in ('R20a',)
+            return rule in ('R20a', 'R20c', 'R20d')
 
         def holds(self, rule, *a, **k):
             return self.ctx.holds(self._rule, *a, **k) if self._keep(rule) else None
